@@ -10,7 +10,9 @@
 //
 // U I D S = Union / Intersection / Difference / SymmetricDifference of (a, b); UA, UB = UnaryUnion
 // of a, b; Ur Ir Sr = the commutative operations on (b, a); Uaa .. Saa = the four operations on
-// (a, a); PT = Union(Difference(a,b), Intersection(a,b)); envjoin = eq | ne: Envelope of U against
+// (a, a); PT = Union(Difference(a,b), Intersection(a,b)); fields "@OV=dump", "@OVA=dump", "@OVB=dump",
+// "@OVM=dump": the labelled DCEL of the overlays (a,b), (a,{}), (b,{}), (collection of the list,{})
+// exported by the optional hook geom.Geometry.VerifOverlay (absent without the hook); envjoin = eq | ne: Envelope of U against
 // the join of the operands' envelopes. M = UnionMany(list), UU = UnaryUnion(list[0]).
 package main
 
@@ -70,6 +72,37 @@ func call(f func() (geom.Geometry, error)) (geom.Geometry, error) {
 	}
 }
 
+// overlayDump exports the labelled DCEL of the overlay of (a, b) through the optional hook
+// geom/verif_hooks.go (build tag verif); ok is false when the hook is not compiled in.
+var overlaysDumped int
+
+func overlayDump(name string, a, b geom.Geometry) (field string, ok bool) {
+	h, has := interface{}(a).(interface {
+		VerifOverlay(geom.Geometry) string
+	})
+	if !has {
+		return "", false
+	}
+	type out struct{ s string }
+	ch := make(chan out, 1)
+	go func() {
+		defer func() {
+			if p := recover(); p != nil {
+				ch <- out{fmt.Sprintf("PANIC %v", p)}
+			}
+		}()
+		ch <- out{h.VerifOverlay(b)}
+	}()
+	select {
+	case o := <-ch:
+		overlaysDumped++
+		return "@" + name + "=" + strings.ReplaceAll(o.s, "\t", " "), true
+	case <-time.After(callTimeout):
+		timeouts++
+		return "@" + name + "=TIMEOUT", true
+	}
+}
+
 func op2(name string, f func(a, b geom.Geometry) (geom.Geometry, error), a, b geom.Geometry) (string, geom.Geometry, bool) {
 	g, err := call(func() (geom.Geometry, error) { return f(a, b) })
 	return res(name, g, err), g, err == nil
@@ -122,6 +155,14 @@ func pairFields(i int, class, kinds string, ga, gb geom.Geometry) []string {
 		s, _, _ = op2("PT", geom.Union, gD, gI)
 		fields = append(fields, s)
 	}
+	for _, o := range []struct {
+		n    string
+		x, y geom.Geometry
+	}{{"OV", ga, gb}, {"OVA", ga, geom.Geometry{}}, {"OVB", gb, geom.Geometry{}}} {
+		if f, ok := overlayDump(o.n, o.x, o.y); ok {
+			fields = append(fields, f)
+		}
+	}
 	return fields
 }
 
@@ -170,6 +211,9 @@ func main() {
 			}
 			m, err := call(func() (geom.Geometry, error) { return geom.UnionMany(gs) })
 			fields = append(fields, res("M", m, err))
+			if f, ok := overlayDump("OVM", geom.NewGeometryCollection(gs).AsGeometry(), geom.Geometry{}); ok {
+				fields = append(fields, f)
+			}
 			if k == 1 {
 				u, err := call(func() (geom.Geometry, error) { return geom.UnaryUnion(gs[0]) })
 				fields = append(fields, res("UU", u, err))
@@ -201,7 +245,7 @@ func main() {
 		fields := pairFields(i, class, kindNames[ka]+"x"+kindNames[kb], ga, gb)
 		fmt.Fprintln(w, strings.Join(fields, "\t"))
 	}
-	stats := map[string]interface{}{"classes": classes, "pair_kinds": pairKinds, "list_lengths": listLens, "generator": st.m}
+	stats := map[string]interface{}{"classes": classes, "pair_kinds": pairKinds, "list_lengths": listLens, "generator": st.m, "overlays_dumped_through_hook": overlaysDumped}
 	js, _ := json.Marshal(stats)
 	fmt.Fprintf(w, "#GEN\t%s\n", js)
 }
